@@ -17,6 +17,18 @@ def sh(cmd, cwd=None, timeout=1800):
     r = subprocess.run(cmd, shell=True, cwd=cwd, env=ENV, capture_output=True, text=True, timeout=timeout)
     return r.returncode, (r.stdout + r.stderr)
 
+def keep_evidence(fn):
+    """Checks run against a patched /repo must not leave their evidence behind."""
+    import tempfile, shutil
+    bak = tempfile.mkdtemp(prefix="EVIDENCE_BACKUP-")
+    shutil.copytree("/verif/evidence", os.path.join(bak, "evidence"))
+    try:
+        return fn()
+    finally:
+        shutil.rmtree("/verif/evidence", ignore_errors=True)
+        shutil.copytree(os.path.join(bak, "evidence"), "/verif/evidence")
+        shutil.rmtree(bak, ignore_errors=True)
+
 def main():
     prop, n, out = sys.argv[1], sys.argv[2], sys.argv[3]
     checks = [prop]
@@ -116,4 +128,4 @@ def finish(res, prop, n, patch, demo):
     print(json.dumps({k: v for k, v in res.items() if k not in ("agent_meta", "existing_tests_tail")}, indent=1)[:3000])
 
 if __name__ == "__main__":
-    main()
+    keep_evidence(main)
